@@ -85,6 +85,11 @@ theorem serve_refines (E : Engine) (enc : String → Bytes) (R : Flamego.Router)
         obtain ⟨l, ps⟩ := lp
         simp [call_Handler, dispatchOf, Lib.Leaf_Handler, Lib.Leaf_Route, mapSet_eq_set, B]
 
+/-! ### the two setters translated along with the dispatcher -/
+
+theorem autoHead_sets (r : router) (v : Bool) : (AutoHead r v).2 = { r with autoHead := v } := rfl
+theorem handlerWrapper_sets (r : router) (f : FuncVal) : (HandlerWrapper r f).2 = { r with handlerWrapper := f } := rfl
+
 /-! ### the clauses -/
 
 /-- C07 ("exactly one handler chain"): serving makes exactly one call into the world, whatever the request -/
